@@ -480,17 +480,85 @@ package saml
 //@        len(req.SPSSODescriptor.KeyDescriptors[k].KeyInfo.X509Data.X509Certificates) != 0 &&
 //@        req.SPSSODescriptor.KeyDescriptors[k].KeyInfo.X509Data.X509Certificates[0].Data != "") })
 
-//@ -- Element() builders serialise a struct into an etree element (pure construction; trusted contracts:
-//@ -- what the element contains is the dependency-side half of C06/C07)
+//@ -- Element() builders of the IdP's messages: each element carries its struct's identifying fields (ghost facts of
+//@ -- etree's NewElement / CreateAttr / SetText / AddChild) and the sub-elements built from the struct's own parts.
+//@ -- (What etree then serialises, and c14n, are the dependency-side half of C06/C07.)
 //@ ghost func ElementOfAssertion(a *Assertion, el *etree.Element) bool
 //@ ghost func ElementOfResponse(r *Response, el *etree.Element) bool
+//@ ghost func ElementOfSubject(a *Subject, el *etree.Element) bool
+//@ ghost func ElementOfConditions(a *Conditions, el *etree.Element) bool
+//@ ghost func ElementOfConfirmation(v SubjectConfirmation, el *etree.Element) bool
+//@ ghost func ElementOfConfirmationData(a *SubjectConfirmationData, el *etree.Element) bool
+//@ ghost func ElementOfAudienceRestriction(v AudienceRestriction, el *etree.Element) bool
+//@ ghost func ElementOfAudience(a *Audience, el *etree.Element) bool
+//@ ghost func ElementOfAuthnStatement(v AuthnStatement, el *etree.Element) bool
+//@ ghost func ElementOfAttributeStatement(v AttributeStatement, el *etree.Element) bool
+//@ ghost func ElementOfAttribute(v Attribute, el *etree.Element) bool
+//@ ghost func ElementOfAttributeValue(v AttributeValue, el *etree.Element) bool
+//@ contract (*AttributeValue).Element
+//@ ensures[C06] built: result != nil && ElName(result) == "saml:AttributeValue" && ElText(result, a.Value) && ElAttr(result, "xsi:type", a.Type)
+//@ records built: ElementOfAttributeValue(*a, result)
+//@ contract (*Attribute).Element
+//@ ensures[C06] built: result != nil && ElName(result) == "saml:Attribute" && (a.Name != "" ==> ElAttr(result, "Name", a.Name)) &&
+//@    (a.FriendlyName != "" ==> ElAttr(result, "FriendlyName", a.FriendlyName)) && (a.NameFormat != "" ==> ElAttr(result, "NameFormat", a.NameFormat))
+//@ assert@call[C06] AddChild #1 (e *etree.Element, t etree.Token) uses el *etree.Element, v AttributeValue value_children: e == el && ElementOfAttributeValue(v, tokEl(t))
+//@ records built: ElementOfAttribute(*a, result)
+//@ contract (*AttributeStatement).Element
+//@ ensures[C06] built: result != nil && ElName(result) == "saml:AttributeStatement"
+//@ assert@call[C06] AddChild #1 (e *etree.Element, t etree.Token) uses el *etree.Element, v Attribute attribute_children: e == el && ElementOfAttribute(v, tokEl(t))
+//@ records built: ElementOfAttributeStatement(*a, result)
+//@ contract (*AuthnStatement).Element
+//@ ensures[C06] built: result != nil && ElName(result) == "saml:AuthnStatement" && ElAttr(result, "AuthnInstant", a.AuthnInstant.Format(timeFormat)) &&
+//@    (a.SessionIndex != "" ==> ElAttr(result, "SessionIndex", a.SessionIndex))
+//@ records built: ElementOfAuthnStatement(*a, result)
+//@ contract (*Audience).Element
+//@ ensures[C06] built: result != nil && ElName(result) == "saml:Audience" && ElText(result, a.Value)
+//@ records built: ElementOfAudience(a, result)
+//@ contract (*AudienceRestriction).Element
+//@ ensures[C06] built: result != nil && ElName(result) == "saml:AudienceRestriction"
+//@ assert@call[C06] AddChild #1 (e *etree.Element, t etree.Token) uses el *etree.Element audience_child: e == el && ElementOfAudience(&a.Audience, tokEl(t))
+//@ records built: ElementOfAudienceRestriction(*a, result)
+//@ contract (*SubjectConfirmationData).Element
+//@ ensures[C06] built: result != nil && ElName(result) == "saml:SubjectConfirmationData" &&
+//@    (s.Recipient != "" ==> ElAttr(result, "Recipient", s.Recipient)) && (s.InResponseTo != "" ==> ElAttr(result, "InResponseTo", s.InResponseTo)) &&
+//@    (!s.NotOnOrAfter.IsZero() ==> ElAttr(result, "NotOnOrAfter", s.NotOnOrAfter.Format(timeFormat)))
+//@ records built: ElementOfConfirmationData(s, result)
+//@ contract (*SubjectConfirmation).Element
+//@ ensures[C06] built: result != nil && ElName(result) == "saml:SubjectConfirmation" && ElAttr(result, "Method", a.Method)
+//@ assert@call[C06] AddChild #2 (e *etree.Element, t etree.Token) uses el *etree.Element data_child:
+//@    e == el && a.SubjectConfirmationData != nil && ElementOfConfirmationData(a.SubjectConfirmationData, tokEl(t))
+//@ records built: ElementOfConfirmation(*a, result)
+//@ contract (*Subject).Element
+//@ ensures[C06] built: result != nil && ElName(result) == "saml:Subject"
+//@ assert@call[C06] AddChild #1 (e *etree.Element, t etree.Token) uses el *etree.Element name_id_child: e == el && a.NameID != nil && ElementOfNameID(a.NameID, tokEl(t))
+//@ assert@call[C06] AddChild #2 (e *etree.Element, t etree.Token) uses el *etree.Element, v SubjectConfirmation confirmation_children: e == el && ElementOfConfirmation(v, tokEl(t))
+//@ records built: ElementOfSubject(a, result)
+//@ contract (*Conditions).Element
+//@ ensures[C06] built: result != nil && ElName(result) == "saml:Conditions" &&
+//@    (!c.NotBefore.IsZero() ==> ElAttr(result, "NotBefore", c.NotBefore.Format(timeFormat))) &&
+//@    (!c.NotOnOrAfter.IsZero() ==> ElAttr(result, "NotOnOrAfter", c.NotOnOrAfter.Format(timeFormat)))
+//@ assert@call[C06] AddChild #1 (e *etree.Element, t etree.Token) uses el *etree.Element, v AudienceRestriction audience_children: e == el && ElementOfAudienceRestriction(v, tokEl(t))
+//@ records built: ElementOfConditions(c, result)
 //@ contract (*Assertion).Element
-//@ trusted
 //@ ensures[C06] nonnil: result != nil
+//@ ensures[C06] attributes: ElName(result) == "saml:Assertion" && ElAttr(result, "ID", a.ID) && ElAttr(result, "Version", "2.0") &&
+//@    ElAttr(result, "IssueInstant", a.IssueInstant.Format(timeFormat))
+//@ ensures[C06] signature_child: a.Signature != nil ==> ElChild(result, a.Signature)
+//@ assert@call[C06] AddChild #1 (e *etree.Element, t etree.Token) uses el *etree.Element issuer_child: e == el && ElementOfIssuer(&a.Issuer, tokEl(t))
+//@ assert@call[C06] AddChild #3 (e *etree.Element, t etree.Token) uses el *etree.Element subject_child: e == el && a.Subject != nil && ElementOfSubject(a.Subject, tokEl(t))
+//@ assert@call[C06] AddChild #4 (e *etree.Element, t etree.Token) uses el *etree.Element conditions_child: e == el && a.Conditions != nil && ElementOfConditions(a.Conditions, tokEl(t))
+//@ assert@call[C06] AddChild #5 (e *etree.Element, t etree.Token) uses el *etree.Element, authnStatement AuthnStatement authn_children: e == el && ElementOfAuthnStatement(authnStatement, tokEl(t))
+//@ assert@call[C06] AddChild #6 (e *etree.Element, t etree.Token) uses el *etree.Element, attributeStatement AttributeStatement attribute_children: e == el && ElementOfAttributeStatement(attributeStatement, tokEl(t))
 //@ records built: ElementOfAssertion(a, result)
 //@ contract (*Response).Element
-//@ trusted
 //@ ensures[C06] nonnil: result != nil
+//@ ensures[C06] attributes: ElName(result) == "samlp:Response" && ElAttr(result, "ID", r.ID) && ElAttr(result, "Version", r.Version) &&
+//@    ElAttr(result, "IssueInstant", r.IssueInstant.Format(timeFormat)) && (r.Destination != "" ==> ElAttr(result, "Destination", r.Destination)) &&
+//@    (r.InResponseTo != "" ==> ElAttr(result, "InResponseTo", r.InResponseTo))
+//@ ensures[C06,C08] carried: (r.Signature != nil ==> ElChild(result, r.Signature)) && (r.EncryptedAssertion != nil ==> ElChild(result, r.EncryptedAssertion))
+//@ assert@call[C06] AddChild #1 (e *etree.Element, t etree.Token) uses el *etree.Element issuer_child: e == el && r.Issuer != nil && ElementOfIssuer(r.Issuer, tokEl(t))
+//@ assert@call[C06] AddChild #3 (e *etree.Element, t etree.Token) uses el *etree.Element status_child: e == el && ElementOfStatus(&r.Status, tokEl(t))
+//@ assert@call[C06,C08] AddChild #5 (e *etree.Element, t etree.Token) uses el *etree.Element assertion_child: e == el && r.Assertion != nil && ElementOfAssertion(r.Assertion, tokEl(t))
 //@ records built: ElementOfResponse(r, result)
 
 //@ contract (*IdpAuthnRequest).signingContext
@@ -815,24 +883,76 @@ package saml
 //@ ensures[C13] method_applied: err == nil ==> CtxMethod(result) == sp.SignatureMethod
 
 //@ -- every Sign* helper signs the element built from the message and stores the signature the library returned (or fails)
+//@ -- the Element() builders: the element carries the message's name, identifiers, addressing and policy fields (ghost
+//@ -- facts of etree's NewElement / CreateAttr / SetText / AddChild), the signature element when there is one, and the
+//@ -- sub-elements built from the message's own parts
+//@ ghost func ElementOfIssuer(a *Issuer, el *etree.Element) bool
+//@ ghost func ElementOfNameIDPolicy(a *NameIDPolicy, el *etree.Element) bool
+//@ ghost func ElementOfNameID(a *NameID, el *etree.Element) bool
+//@ ghost func ElementOfStatus(a *Status, el *etree.Element) bool
+//@ ghost func ElementOfStatusCode(a *StatusCode, el *etree.Element) bool
+//@ go func tokEl(t etree.Token) *etree.Element { e, _ := t.(*etree.Element); return e }
+//@ contract (*Issuer).Element
+//@ ensures[C12,C06] built: result != nil && ElName(result) == "saml:Issuer" && ElText(result, a.Value) &&
+//@    (a.Format != "" ==> ElAttr(result, "Format", a.Format))
+//@ records built: ElementOfIssuer(a, result)
+//@ contract (*NameIDPolicy).Element
+//@ ensures[C12] built: result != nil && ElName(result) == "samlp:NameIDPolicy" &&
+//@    (a.Format != nil && *a.Format != "" ==> ElAttr(result, "Format", *a.Format)) &&
+//@    (a.AllowCreate != nil ==> ElAttr(result, "AllowCreate", strconv.FormatBool(*a.AllowCreate)))
+//@ records built: ElementOfNameIDPolicy(a, result)
+//@ contract (*NameID).Element
+//@ ensures[C12,C06] built: result != nil && ElName(result) == "saml:NameID" && (a.Value != "" ==> ElText(result, a.Value)) &&
+//@    (a.Format != "" ==> ElAttr(result, "Format", a.Format)) && (a.NameQualifier != "" ==> ElAttr(result, "NameQualifier", a.NameQualifier)) &&
+//@    (a.SPNameQualifier != "" ==> ElAttr(result, "SPNameQualifier", a.SPNameQualifier))
+//@ records built: ElementOfNameID(a, result)
+//@ contract (*StatusCode).Element
+//@ ensures[C12,C06] built: result != nil && ElName(result) == "samlp:StatusCode" && ElAttr(result, "Value", s.Value)
+//@ records built: ElementOfStatusCode(s, result)
+//@ contract (*Status).Element
+//@ ensures[C12,C06] built: result != nil && ElName(result) == "samlp:Status"
+//@ assert@call[C12,C06] AddChild #1 (e *etree.Element, t etree.Token) uses el *etree.Element status_code_child: e == el && ElementOfStatusCode(&s.StatusCode, tokEl(t))
+//@ records built: ElementOfStatus(s, result)
+
 //@ contract (*AuthnRequest).Element
-//@ trusted
 //@ ensures[C13] nonnil: result != nil
+//@ ensures[C12] attributes: ElName(result) == "samlp:AuthnRequest" && ElAttr(result, "ID", r.ID) && ElAttr(result, "Version", r.Version) &&
+//@    ElAttr(result, "IssueInstant", r.IssueInstant.Format(timeFormat)) &&
+//@    (r.Destination != "" ==> ElAttr(result, "Destination", r.Destination)) &&
+//@    (r.AssertionConsumerServiceURL != "" ==> ElAttr(result, "AssertionConsumerServiceURL", r.AssertionConsumerServiceURL)) &&
+//@    (r.ProtocolBinding != "" ==> ElAttr(result, "ProtocolBinding", r.ProtocolBinding)) &&
+//@    (r.ForceAuthn != nil ==> ElAttr(result, "ForceAuthn", strconv.FormatBool(*r.ForceAuthn)))
+//@ ensures[C12,C13] signature_child: r.Signature != nil ==> ElChild(result, r.Signature)
+//@ assert@call[C12] AddChild #1 (e *etree.Element, t etree.Token) uses el *etree.Element issuer_child: e == el && r.Issuer != nil && ElementOfIssuer(r.Issuer, tokEl(t))
+//@ assert@call[C12] AddChild #4 (e *etree.Element, t etree.Token) uses el *etree.Element policy_child: e == el && r.NameIDPolicy != nil && ElementOfNameIDPolicy(r.NameIDPolicy, tokEl(t))
 //@ records built: ElementOfAuthnRequest(r, result)
 //@ ghost func ElementOfAuthnRequest(r *AuthnRequest, el *etree.Element) bool
 //@ contract (*LogoutRequest).Element
-//@ trusted
 //@ ensures[C13] nonnil: result != nil
+//@ ensures[C12] attributes: ElName(result) == "samlp:LogoutRequest" && ElAttr(result, "ID", r.ID) && ElAttr(result, "Version", r.Version) &&
+//@    ElAttr(result, "IssueInstant", r.IssueInstant.Format(timeFormat)) && (r.Destination != "" ==> ElAttr(result, "Destination", r.Destination))
+//@ ensures[C12,C13] signature_child: r.Signature != nil ==> ElChild(result, r.Signature)
+//@ assert@call[C12] AddChild #1 (e *etree.Element, t etree.Token) uses el *etree.Element issuer_child: e == el && r.Issuer != nil && ElementOfIssuer(r.Issuer, tokEl(t))
+//@ assert@call[C12] AddChild #3 (e *etree.Element, t etree.Token) uses el *etree.Element name_id_child: e == el && r.NameID != nil && ElementOfNameID(r.NameID, tokEl(t))
 //@ records built: ElementOfLogoutRequest(r, result)
 //@ ghost func ElementOfLogoutRequest(r *LogoutRequest, el *etree.Element) bool
 //@ contract (*LogoutResponse).Element
-//@ trusted
 //@ ensures[C13] nonnil: result != nil
+//@ ensures[C12] attributes: ElName(result) == "samlp:LogoutResponse" && ElAttr(result, "ID", r.ID) && ElAttr(result, "Version", r.Version) &&
+//@    ElAttr(result, "IssueInstant", r.IssueInstant.Format(timeFormat)) && (r.Destination != "" ==> ElAttr(result, "Destination", r.Destination)) &&
+//@    (r.InResponseTo != "" ==> ElAttr(result, "InResponseTo", r.InResponseTo))
+//@ ensures[C12,C13] signature_child: r.Signature != nil ==> ElChild(result, r.Signature)
+//@ assert@call[C12] AddChild #1 (e *etree.Element, t etree.Token) uses el *etree.Element issuer_child: e == el && r.Issuer != nil && ElementOfIssuer(r.Issuer, tokEl(t))
+//@ assert@call[C12] AddChild #3 (e *etree.Element, t etree.Token) uses el *etree.Element status_child: e == el && ElementOfStatus(&r.Status, tokEl(t))
 //@ records built: ElementOfLogoutResponse(r, result)
 //@ ghost func ElementOfLogoutResponse(r *LogoutResponse, el *etree.Element) bool
 //@ contract (*ArtifactResolve).Element
-//@ trusted
 //@ ensures[C13] nonnil: result != nil
+//@ ensures[C12] attributes: ElName(result) == "samlp:ArtifactResolve" && ElAttr(result, "ID", r.ID) && ElAttr(result, "Version", r.Version) &&
+//@    ElAttr(result, "IssueInstant", r.IssueInstant.Format(timeFormat))
+//@ ensures[C12,C13] signature_child: r.Signature != nil ==> ElChild(result, r.Signature)
+//@ assert@call[C12] AddChild #1 (e *etree.Element, t etree.Token) uses el *etree.Element issuer_child: e == el && r.Issuer != nil && ElementOfIssuer(r.Issuer, tokEl(t))
+//@ assert@call[C12] SetText #1 (e *etree.Element, text string) artifact_text: text == r.Artifact && ElName(e) == "samlp:Artifact"
 //@ records built: ElementOfArtifactResolve(r, result)
 //@ ghost func ElementOfArtifactResolve(r *ArtifactResolve, el *etree.Element) bool
 
